@@ -23,7 +23,14 @@ func (md *modelT) eval(t *Term) (uint64, bool) {
 	case opFalse:
 		return 0, true
 	case opVar:
-		return md.vals[t], true // absent: unconstrained when the model was taken, 0 extends it
+		v, ok := md.vals[t]
+		if !ok {
+			// absent: unconstrained when the model was taken; 0 extends it, and
+			// the extension is recorded so that the vector built from this model
+			// uses the same value (an unrecorded variable is filled from the seed)
+			md.vals[t] = 0
+		}
+		return v, true
 	}
 	if v, ok := md.memo[t]; ok {
 		return v, true
